@@ -43,6 +43,7 @@ var transparentKnown = map[string]bool{
 	"optionIniName":                 true,
 	"(*Group).groupByName":          true,
 	"(*alignmentInfo).updateLen":    true,
+	"maxCommandLength":              true,
 }
 
 // inlineSite returns the unique static call site of a new function (nil if it
